@@ -362,7 +362,7 @@ Section Exchange.
       set (ck := HM (Hi HM pw salt v) client_key_label).
       rewrite (ClientSignature_spec alg H HM lim hash_ok hmac_ok H_len HM_len ds_range lim_big) by (try apply HM_len; pose proof (zlen_nonneg pw); lia).
       cbn [abind].
-      rewrite (ClientProof_spec alg HM) by apply HM_len.
+      rewrite (ClientProof_spec alg) by apply HM_len.
       assert (Lp : zlen (XOR ck (HM (H ck) auth)) = dsz).
       { unfold zlen. rewrite XOR_length.
         - pose proof (HM_len (Hi HM pw salt v) client_key_label) as E. exact E.
@@ -379,3 +379,142 @@ Section Exchange.
       reflexivity.
   Qed.
 End Exchange.
+
+(* ------------------------------------------------------------------------------------------ *)
+(* the client-first-message built by _make_scram_init_msg                                      *)
+Definition gs2_header (plus secured : bool) (cbname : list Z) : list Z :=
+  if plus then [112; 61] ++ cbname ++ [44; 44] else [if secured then 121 else 110; 44; 44].
+Definition n_attr (node : list Z) : list Z := 110 :: 61 :: scram_escape node.
+Definition first_bare_of (node cnonce : list Z) : list Z := n_attr node ++ 44 :: r_attr cnonce.
+Definition client_first_of (plus secured : bool) (cbname node cnonce : list Z) : list Z :=
+  gs2_header plus secured cbname ++ first_bare_of node cnonce.
+Definition client_nonce (rng : list Z) : list Z := rand_nonce (firstn NONCE_BYTES rng) scram_nonce_len.
+
+Lemma firstn_exact {A} (a b : list A) : firstn (length a) (a ++ b) = a.
+Proof. rewrite firstn_app, Nat.sub_diag, firstn_O, app_nil_r. apply firstn_all. Qed.
+Lemma skipn_exact {A} (a b : list A) : skipn (length a) (a ++ b) = b.
+Proof. rewrite skipn_app, Nat.sub_diag, skipn_all. reflexivity. Qed.
+
+Lemma init_noplus : forall secured cbtype cbdata jid rng node,
+  spec_node jid = Some node ->
+  fst (make_scram_init_msg false secured cbtype cbdata jid rng) =
+    AOk {| si_message := client_first_of false secured [] node (client_nonce rng);
+           si_first_bare := 3;
+           si_channel_binding := encode (gs2_header false secured []) |}.
+Proof.
+  intros secured cbt cbd jid rng node Hn. unfold make_scram_init_msg. rewrite Hn.
+  unfold rng_take. change (Z.to_nat (scram_nonce_len / 2)) with NONCE_BYTES.
+  change (scram_buf_size <? scram_nonce_len) with false. cbv iota. cbn [fst].
+  fold (client_nonce rng). set (cn := client_nonce rng). set (nd := scram_escape node).
+  change (nthz scram_msg_len_consts 0) with 8. change (nthz scram_msg_len_consts 1) with 1.
+  change (nthz scram_btl_incr 1) with 3.
+  set (flag := if secured then scram_flag_secured else scram_flag_unsecured).
+  unfold snprintf_checked.
+  assert (E : fmt_expand scram_fmt_noplus [[flag]; nd; cn] = [flag; 44; 44] ++ first_bare_of node cn).
+  { transitivity ([flag] ++ [44] ++ [44] ++ [110] ++ [61] ++ nd ++ [44] ++ [114] ++ [61] ++ cn ++ []); [reflexivity|].
+    rewrite app_nil_r. unfold first_bare_of, n_attr, r_attr. fold nd. cbn [app]. reflexivity. }
+  rewrite E.
+  assert (L : zlen ([flag; 44; 44] ++ first_bare_of node cn) = zlen nd + zlen cn + 8).
+  { unfold first_bare_of, n_attr, r_attr. fold nd. zl. lia. }
+  rewrite L.
+  replace (zlen nd + zlen cn + 8 <? zlen nd + zlen cn + 8 + 0 + 1) with true by (symmetry; apply Z.ltb_lt; lia).
+  cbn [abind]. change (scram_buf_size <? 0 + 3) with false. cbv iota.
+  pose proof (zlen_nonneg nd). pose proof (zlen_nonneg cn).
+  rewrite ?L.
+  replace (zlen nd + zlen cn + 8 + 1 <? 0 + 3) with false by (symmetry; apply Z.ltb_ge; lia).
+  change (Z.to_nat (0 + 3)) with (length [flag; 44; 44]).
+  rewrite <- app_assoc, firstn_exact. cbn [abind].
+  change (scram_buf_size <? zlen [flag; 44; 44]) with false. cbv iota.
+  unfold client_first_of, gs2_header, flag. destruct secured; reflexivity.
+Qed.
+
+Lemma init_plus : forall cbname cbdata jid rng node,
+  spec_node jid = Some node ->
+  zlen cbname + 4 <= 56 -> zlen cbdata <= 56 - (zlen cbname + 4) ->
+  fst (make_scram_init_msg true true (Some cbname) (Some cbdata) jid rng) =
+    AOk {| si_message := client_first_of true true cbname node (client_nonce rng);
+           si_first_bare := zlen cbname + 4;
+           si_channel_binding := encode (gs2_header true true cbname ++ cbdata) |}.
+Proof.
+  intros t d jid rng node Hn Ht Hd. unfold make_scram_init_msg. cbn [negb]. rewrite Hn.
+  unfold rng_take. change (Z.to_nat (scram_nonce_len / 2)) with NONCE_BYTES.
+  change (scram_buf_size <? scram_nonce_len) with false. cbv iota. cbn [fst].
+  fold (client_nonce rng). set (cn := client_nonce rng). set (nd := scram_escape node).
+  change (nthz scram_msg_len_consts 0) with 8. change (nthz scram_msg_len_consts 1) with 1.
+  change (nthz scram_btl_incr 0) with 1. change (nthz scram_btl_incr 1) with 3.
+  unfold snprintf_checked.
+  assert (E : fmt_expand scram_fmt_plus [t; nd; cn] = ([112; 61] ++ t ++ [44; 44]) ++ first_bare_of node cn).
+  { transitivity ([112] ++ [61] ++ t ++ [44] ++ [44] ++ [110] ++ [61] ++ nd ++ [44] ++ [114] ++ [61] ++ cn ++ []); [reflexivity|].
+    rewrite app_nil_r. unfold first_bare_of, n_attr, r_attr. fold nd. cbn [app]. rewrite <- !app_assoc. cbn [app]. reflexivity. }
+  rewrite E.
+  pose proof (zlen_nonneg nd). pose proof (zlen_nonneg cn). pose proof (zlen_nonneg t). pose proof (zlen_nonneg d).
+  assert (L : zlen (([112; 61] ++ t ++ [44; 44]) ++ first_bare_of node cn) = zlen t + zlen nd + zlen cn + 9).
+  { unfold first_bare_of, n_attr, r_attr. fold nd. zl. lia. }
+  rewrite L.
+  replace (zlen t + zlen nd + zlen cn + 9 <? zlen nd + zlen cn + 8 + (zlen t + 1) + 1) with true by (symmetry; apply Z.ltb_lt; lia).
+  cbn [abind]. change scram_buf_size with 56.
+  replace (56 <? zlen t + 1 + 3) with false by (symmetry; apply Z.ltb_ge; lia).
+  rewrite ?L.
+  replace (zlen t + zlen nd + zlen cn + 9 + 1 <? zlen t + 1 + 3) with false by (symmetry; apply Z.ltb_ge; lia).
+  replace (Z.to_nat (zlen t + 1 + 3)) with (length ([112; 61] ++ t ++ [44; 44]))
+    by (rewrite <- to_nat_zlen; f_equal; zl; lia).
+  rewrite <- app_assoc, firstn_exact.
+  replace (56 - (zlen t + 1 + 3) <? zlen d) with false by (symmetry; apply Z.ltb_ge; lia).
+  cbn [abind].
+  replace (56 <? zlen (([112; 61] ++ t ++ [44; 44]) ++ d)) with false by (symmetry; apply Z.ltb_ge; zl; lia).
+  unfold client_first_of, gs2_header. rewrite <- !app_assoc. do 2 f_equal. lia.
+Qed.
+
+(* refusals: a -PLUS mechanism without TLS, without binding type or data, or data that does not fit *)
+Lemma init_plus_refused : forall secured cbtype cbdata jid rng,
+  secured = false \/ cbtype = None \/ spec_node jid = None ->
+  fst (make_scram_init_msg true secured cbtype cbdata jid rng) = ANull.
+Proof.
+  intros secured cbt cbd jid rng Hc. unfold make_scram_init_msg.
+  destruct secured; cbn [negb]; [|reflexivity].
+  destruct cbt as [t|]; [|reflexivity].
+  destruct Hc as [Hc|[Hc|Hc]]; try discriminate. rewrite Hc. reflexivity.
+Qed.
+
+(* escaping: comma-free, and the RFC's decoder gives the name back *)
+Lemma esc_char_cases c : esc_char c = if c =? 44 then [61; 50; 67] else if c =? 61 then [61; 51; 68] else [c].
+Proof.
+  unfold esc_char. change scram_user_escape with [(44, [61; 50; 67]); (61, [61; 51; 68])].
+  cbn [find fst snd]. rewrite (Z.eqb_sym 44 c), (Z.eqb_sym 61 c).
+  destruct (c =? 44); [reflexivity|]. destruct (c =? 61); reflexivity.
+Qed.
+Lemma escape_cfree : forall node, cfree (scram_escape node).
+Proof.
+  induction node as [|c node IH]; [apply cfree_nil|].
+  unfold scram_escape. cbn [flat_map]. apply cfree_app; [|exact IH]. rewrite esc_char_cases.
+  destruct (c =? 44) eqn:E1; [intros [K|[K|[K|[]]]]; discriminate|].
+  destruct (c =? 61) eqn:E2; [intros [K|[K|[K|[]]]]; discriminate|].
+  apply Z.eqb_neq in E1. intros [K|[]]. congruence.
+Qed.
+Lemma escape_decode : forall node, saslname_decode (scram_escape node) = Some node.
+Proof.
+  induction node as [|c node IH]; [reflexivity|].
+  unfold scram_escape. cbn [flat_map]. fold (scram_escape node). rewrite esc_char_cases.
+  destruct (c =? 44) eqn:E1.
+  - apply Z.eqb_eq in E1. subst c. cbn [app saslname_decode Z.eqb Pos.eqb andb]. rewrite IH. reflexivity.
+  - destruct (c =? 61) eqn:E2.
+    + apply Z.eqb_eq in E2. subst c. cbn [app saslname_decode Z.eqb Pos.eqb andb]. rewrite IH. reflexivity.
+    + cbn [app saslname_decode]. rewrite E1, E2, IH. reflexivity.
+Qed.
+
+(* the nonce consists of the hex digits of the table: no comma, no NUL, bytes *)
+Lemma In_firstn {A} : forall n (l : list A) c, In c (firstn n l) -> In c l.
+Proof. induction n as [|n IH]; intros [|x l] c H; cbn [firstn In] in *; try contradiction. destruct H as [H|H]; [now left|right; now apply IH]. Qed.
+Lemma nonce_chars : forall rnd len c, In c (rand_nonce rnd len) -> In c nonce_hex_tbl.
+Proof.
+  intros rnd len c Hc. unfold rand_nonce in Hc. apply In_firstn in Hc. apply in_flat_map in Hc.
+  destruct Hc as (b & _ & Hc). unfold nonce_hex in Hc.
+  assert (R : forall x, 0 <= x < 16 -> In (nthz nonce_hex_tbl x) nonce_hex_tbl).
+  { intros x Hx. unfold nthz. apply nth_In. change (length nonce_hex_tbl) with 16%nat. lia. }
+  destruct Hc as [<-|[<-|[]]]; apply R; apply Z.mod_pos_bound; lia.
+Qed.
+Lemma nonce_cfree rnd len : cfree (rand_nonce rnd len).
+Proof.
+  intros K. apply nonce_chars in K. change nonce_hex_tbl with [48; 49; 50; 51; 52; 53; 54; 55; 56; 57; 65; 66; 67; 68; 69; 70] in K.
+  cbn [In] in K. repeat (destruct K as [K|K]; [discriminate|]). exact K.
+Qed.
